@@ -768,6 +768,7 @@ func (c *Connection) processResult(from any, req *incomingRequest, result any, e
 // write is used by all things that write outgoing messages, including replies.
 // it makes sure that writes are atomic
 func (c *Connection) write(ctx context.Context, msg Message) error {
+	verifPreWrite(c)
 	writer := <-c.writer
 	defer func() { c.writer <- writer }()
 	_, err := writer.Write(ctx, msg)
